@@ -810,4 +810,51 @@ V("c17-identity-from-response", "C17", "response.py",
 OK("c17-benign-log", "C17", "entity.py",
    'logger.info("REQUEST: %s", msg)', 'logger.debug("REQUEST: %s", msg)')
 
+# ------------------------------------------------------------------ C18
+V("c18-unicode-again", "C18", "ident.py",
+  "        if six.PY2 and isinstance(sid, six.text_type):", "        if isinstance(sid, unicode):", rule="R6")
+V("c18-store-no-reverse", "C18", "ident.py",
+  "        self.db[ident] = \" \".join(val)\n        self.db[name_id.text] = ident",
+  "        self.db[ident] = \" \".join(val)", rule="R1")
+V("c18-store-overwrites", "C18", "ident.py",
+  "        try:\n            val = self.db[ident].split(\" \")\n        except KeyError:\n            val = []\n\n        _cn = code(name_id)",
+  "        val = []\n\n        _cn = code(name_id)", rule="R1")
+V("c18-remove-remote-keeps-reverse", "C18", "ident.py",
+  "        except KeyError:\n            pass\n\n        del self.db[name_id.text]\n", "        except KeyError:\n            pass\n", rule="R1")
+V("c18-remove-local-keeps-reverse", "C18", "ident.py",
+  "                    nid = decode(val)\n                    del self.db[nid.text]", "                    nid = decode(val)",
+  rule="R1")
+V("c18-outside-writer", "C18", "server.py",
+  "    def close(self):", "    def forget(self, uid):\n        del self.ident.db[uid]\n\n    def close(self):", rule="R1")
+V("c18-quote-safe-comma", "C18", "ident.py",
+  "            _res.append(\"%d=%s\" % (i, quote(val)))", "            _res.append(\"%d=%s\" % (i, quote(val, safe='/,=')))",
+  rule="R2")
+V("c18-no-quote", "C18", "ident.py",
+  "            _res.append(\"%d=%s\" % (i, quote(val)))", "            _res.append(\"%d=%s\" % (i, val))", rule="R2")
+V("c18-index-only-when-set", "C18", "ident.py",
+  "            _res.append(\"%d=%s\" % (i, quote(val)))\n        i += 1", "            _res.append(\"%d=%s\" % (i, quote(val)))\n            i += 1",
+  rule="R2")
+V("c18-attr-order-changed", "C18", "ident.py",
+  "ATTR = [\"name_qualifier\", \"sp_name_qualifier\", \"format\", \"sp_provided_id\",\n        \"text\"]",
+  "ATTR = [\"name_qualifier\", \"sp_name_qualifier\", \"format\", \"text\"]", rule="R2")
+V("c18-id-not-random", "C18", "ident.py",
+  "        _id = sha256(rndbytes(32))", "        _id = sha256(b'pysaml2')", rule="R3")
+V("c18-no-collision-retry", "C18", "ident.py",
+  "        while _id in self.db:\n            _id = self._create_id(nformat, name_qualifier, sp_name_qualifier)\n", "", rule="R3")
+V("c18-persistent-always-new", "C18", "ident.py",
+  "        nameid = self.match_local_id(userid, sp_name_qualifier, name_qualifier)\n        if nameid:\n            return nameid\n        else:\n            return self.get_nameid(",
+  "        if True:\n            return self.get_nameid(", rule="R4")
+V("c18-match-ignores-sp", "C18", "ident.py",
+  "                if snq and snq == sp_name_qualifier:", "                if snq:", rule="R4")
+V("c18-match-returns-transient", "C18", "ident.py",
+  "                if nid.format == NAMEID_FORMAT_TRANSIENT:\n                    continue\n", "", rule="R4")
+V("c18-mni-no-remove", "C18", "ident.py",
+  "        self.remove_remote(orig_name_id)\n        self.store(_id, name_id)", "        self.store(_id, name_id)", rule="R5")
+V("c18-mni-copy-after-mutation", "C18", "ident.py",
+  "        orig_name_id = copy.copy(name_id)\n\n        if new_id:\n            name_id.sp_provided_id = new_id.text",
+  "        if new_id:\n            name_id.sp_provided_id = new_id.text\n        orig_name_id = copy.copy(name_id)\n        if new_id:\n            pass",
+  rule="R5")
+OK("c18-benign-docstring", "C18", "ident.py",
+   "        # One user may have more than one NameID defined", "        # A user may own several NameIDs")
+
 VARIANTS[:] = [v for v in VARIANTS if v]
